@@ -467,11 +467,7 @@ class TexNode(object):
         \textit{keep me!}
         """
 
-        for arg in self.parent.args:
-            if self in arg.contents:
-                arg.remove(self)
-                return
-        self.parent.remove(self)
+        self.parent._container_of(self.expr).remove(self.expr)
 
     def find(self, name=None, **attrs):
         r"""First descendant node matching criteria.
@@ -588,13 +584,20 @@ class TexNode(object):
         \item Bye
         \end{itemize}
         """
-        for arg in self.expr.args:
-            if child.expr in arg._contents:
-                arg.insert(arg.remove(child.expr), *nodes)
-                return
-        self.expr.insert(
-            self.expr.remove(child.expr),
-            *nodes)
+        container = self._container_of(child.expr)
+        container.insert(container.remove(child.expr), *nodes)
+
+    def _container_of(self, expr):
+        """The argument, or else the expression itself, whose contents hold
+        `expr`: the very object if it is there, otherwise the first textual
+        look-alike (expressions compare equal when their text is equal)."""
+        containers = [arg for arg in self.expr.args
+                      if isinstance(arg, TexGroup)] + [self.expr]
+        for same in (lambda a, b: a is b, lambda a, b: a == b):
+            for container in containers:
+                if any(same(content, expr) for content in container._contents):
+                    return container
+        return self.expr
 
     def search_regex(self, pattern, **kwargs):
         r"""Find objects which match a regular expression.
@@ -841,8 +844,13 @@ class TexExpr(object):
         TexExpr('textbf', [])
         """
         self._assert_supports_contents()
-        index = self._contents.index(expr)
-        self._contents.remove(expr)
+        expr = getattr(expr, 'expr', expr)  # accept a TexNode
+        for index, content in enumerate(self._contents):
+            if content is expr:  # the very object, not a textual look-alike
+                break
+        else:
+            index = self._contents.index(expr)
+        del self._contents[index]
         return index
 
     def _supports_contents(self):
